@@ -1,1 +1,859 @@
-// stub
+// C10 — Conductor executes each height once, in order, under any soft/firm interleaving.
+// Explicit-state search: the real `executor::Initialized::{execute_soft, execute_firm,
+// is_spread_too_large}` with a real `executor::Client` talking over loopback gRPC to a
+// contract-enforcing fake rollup, fed through two real `BlockCache`s as the readers do.
+// A state is the event history replayed on a fresh executor; deliveries that deviate from the
+// in-order stream (duplicate, stale, skip-ahead) carry a deviation cost.
+#![allow(clippy::all, clippy::pedantic, dead_code, unused_imports)]
+
+use std::{
+    collections::{
+        BTreeMap,
+        HashMap,
+    },
+    net::SocketAddr,
+    sync::{
+        Arc,
+        Mutex,
+    },
+};
+
+use astria_core::{
+    execution::v2::ExecutionSession,
+    generated::astria::execution::v2::{
+        self as raw,
+        execution_service_server::{
+            ExecutionService,
+            ExecutionServiceServer,
+        },
+    },
+    primitive::v1::RollupId,
+    protocol::test_utils::ConfigureSequencerBlock,
+    sequencerblock::v1::{
+        block::FilteredSequencerBlock,
+        SequencerBlock,
+    },
+    Protobuf as _,
+};
+use sequencer_client::tendermint::block::Height as SequencerHeight;
+use tokio_util::{
+    sync::CancellationToken,
+    task::JoinMap,
+};
+
+use super::{
+    Client,
+    Initialized,
+};
+#[path = "/verif/engine/mod.rs"]
+mod engine;
+use engine::{
+    explore::{
+        self,
+        Config as ExploreConfig,
+        Model,
+        Step,
+        Violation,
+    },
+    json::J,
+    report::{
+        self,
+        Finding,
+        Report,
+        Tier,
+    },
+};
+
+use crate::{
+    block_cache::BlockCache,
+    celestia::ReconstructedBlock,
+    config::CommitLevel,
+    state::State,
+};
+
+const ROLLUP: RollupId = RollupId::new([0x51; 32]);
+const WINDOW: u32 = 4;
+
+// ---------------------------------------------------------------------------------------------
+// Fake rollup
+// ---------------------------------------------------------------------------------------------
+
+#[derive(Clone, Debug, PartialEq, Eq)]
+enum Call {
+    Execute {
+        seq_hash: String,
+        parent_hash: String,
+        number: u64,
+        hash: String,
+    },
+    Update {
+        firm: (u64, String),
+        soft: (u64, String),
+    },
+}
+
+#[derive(Default)]
+struct Rollup {
+    log: Vec<Call>,
+    /// rollup number -> (hash, parent hash, sequencer block hash)
+    blocks: BTreeMap<u64, (String, String, String)>,
+    session: Option<raw::ExecutionSession>,
+    firm: u64,
+    soft: u64,
+    contract_errors: Vec<String>,
+}
+
+#[derive(Clone)]
+struct FakeRollup(Arc<Mutex<Rollup>>);
+
+fn block_hash_of(number: u64, seq_hash: &str, parent: &str) -> String {
+    format!("{:016x}", report::h64(&(number, seq_hash, parent)))
+}
+
+fn meta(number: u64, hash: &str, parent: &str, seq_hash: &str) -> raw::ExecutedBlockMetadata {
+    raw::ExecutedBlockMetadata {
+        number,
+        hash: hash.to_string(),
+        parent_hash: parent.to_string(),
+        timestamp: Some(pbjson_types::Timestamp {
+            seconds: 1,
+            nanos: 0,
+        }),
+        sequencer_block_hash: seq_hash.to_string(),
+    }
+}
+
+#[async_trait::async_trait]
+impl ExecutionService for FakeRollup {
+    async fn create_execution_session(
+        self: Arc<Self>,
+        _request: tonic::Request<raw::CreateExecutionSessionRequest>,
+    ) -> Result<tonic::Response<raw::ExecutionSession>, tonic::Status> {
+        let r = self.0.lock().unwrap();
+        Ok(tonic::Response::new(r.session.clone().expect("session configured")))
+    }
+
+    async fn get_executed_block_metadata(
+        self: Arc<Self>,
+        request: tonic::Request<raw::GetExecutedBlockMetadataRequest>,
+    ) -> Result<tonic::Response<raw::ExecutedBlockMetadata>, tonic::Status> {
+        let r = self.0.lock().unwrap();
+        let number = match request.into_inner().identifier.and_then(|i| i.identifier) {
+            Some(raw::executed_block_identifier::Identifier::Number(n)) => n,
+            _ => return Err(tonic::Status::invalid_argument("identifier")),
+        };
+        match r.blocks.get(&number) {
+            Some((h, p, s)) => Ok(tonic::Response::new(meta(number, h, p, s))),
+            None => Err(tonic::Status::invalid_argument("unknown block")),
+        }
+    }
+
+    async fn execute_block(
+        self: Arc<Self>,
+        request: tonic::Request<raw::ExecuteBlockRequest>,
+    ) -> Result<tonic::Response<raw::ExecuteBlockResponse>, tonic::Status> {
+        let req = request.into_inner();
+        let mut r = self.0.lock().unwrap();
+        // a rollup executes on top of a block it knows
+        let Some((parent_number, _)) = r.blocks.iter().find(|(_, (h, _, _))| *h == req.parent_hash).map(|(n, b)| (*n, b.clone())) else {
+            r.contract_errors.push(format!("execute_block on unknown parent {}", req.parent_hash));
+            return Err(tonic::Status::failed_precondition("unknown parent"));
+        };
+        let number = parent_number + 1;
+        let hash = block_hash_of(number, &req.sequencer_block_hash, &req.parent_hash);
+        r.blocks.insert(number, (hash.clone(), req.parent_hash.clone(), req.sequencer_block_hash.clone()));
+        r.log.push(Call::Execute {
+            seq_hash: req.sequencer_block_hash.clone(),
+            parent_hash: req.parent_hash.clone(),
+            number,
+            hash: hash.clone(),
+        });
+        Ok(tonic::Response::new(raw::ExecuteBlockResponse {
+            executed_block_metadata: Some(meta(number, &hash, &req.parent_hash, &req.sequencer_block_hash)),
+        }))
+    }
+
+    async fn update_commitment_state(
+        self: Arc<Self>,
+        request: tonic::Request<raw::UpdateCommitmentStateRequest>,
+    ) -> Result<tonic::Response<raw::CommitmentState>, tonic::Status> {
+        let req = request.into_inner();
+        let cs = req.commitment_state.ok_or_else(|| tonic::Status::invalid_argument("no state"))?;
+        let firm = cs.firm_executed_block_metadata.clone().unwrap();
+        let soft = cs.soft_executed_block_metadata.clone().unwrap();
+        let mut r = self.0.lock().unwrap();
+        r.log.push(Call::Update {
+            firm: (firm.number, firm.hash.clone()),
+            soft: (soft.number, soft.hash.clone()),
+        });
+        r.firm = firm.number;
+        r.soft = soft.number;
+        Ok(tonic::Response::new(cs))
+    }
+}
+
+struct Worker {
+    rt: tokio::runtime::Runtime,
+    rollup: FakeRollup,
+    addr: SocketAddr,
+    metrics: &'static crate::metrics::Metrics,
+}
+
+thread_local! {
+    static WORKER: std::cell::RefCell<Option<Arc<Worker>>> = const { std::cell::RefCell::new(None) };
+}
+
+fn worker() -> Arc<Worker> {
+    WORKER.with(|w| {
+        let mut slot = w.borrow_mut();
+        if slot.is_none() {
+            use telemetry::Metrics as _;
+            let rt = tokio::runtime::Builder::new_multi_thread().worker_threads(1).enable_all().build().unwrap();
+            let rollup = FakeRollup(Arc::new(Mutex::new(Rollup::default())));
+            let service = rollup.clone();
+            let addr = rt.block_on(async move {
+                let listener = tokio::net::TcpListener::bind("127.0.0.1:0").await.unwrap();
+                let addr = listener.local_addr().unwrap();
+                tokio::spawn(async move {
+                    tonic::transport::Server::builder()
+                        .add_service(ExecutionServiceServer::new(service))
+                        .serve_with_incoming(tokio_stream::wrappers::TcpListenerStream::new(listener))
+                        .await
+                        .unwrap();
+                });
+                addr
+            });
+            let metrics = Box::leak(Box::new(crate::metrics::Metrics::noop_metrics(&()).unwrap()));
+            *slot = Some(Arc::new(Worker {
+                rt,
+                rollup,
+                addr,
+                metrics,
+            }));
+        }
+        slot.as_ref().unwrap().clone()
+    })
+}
+
+// ---------------------------------------------------------------------------------------------
+// Model
+// ---------------------------------------------------------------------------------------------
+
+#[derive(Clone, Copy, Debug, PartialEq, Eq, Hash)]
+enum Ev {
+    /// the soft (sequencer) reader fetched the block at offset `k` (0-based from the first height)
+    SoftArrive(u32),
+    FirmArrive(u32),
+    ExecSoft,
+    ExecFirm,
+    /// the soft reader observes the executor's next expected soft height (`drop_obsolete`)
+    SoftSync,
+}
+
+#[derive(Clone, Copy, Debug)]
+struct Setup {
+    level: CommitLevel,
+    sequencer_start: u64,
+    rollup_start: u64,
+    look_ahead: u64,
+}
+
+#[derive(Clone, Debug, PartialEq, Eq, Hash)]
+struct Obs {
+    firm: u64,
+    soft: u64,
+    soft_queue: Vec<u32>,
+    firm_queue: Vec<u32>,
+    soft_cache: (u64, Vec<u64>),
+    firm_cache: (u64, Vec<u64>),
+    /// highest offset each stream has delivered in order (for the deviation cost)
+    soft_next: u32,
+    firm_next: u32,
+    stopped: bool,
+    executed: Vec<u32>,
+    next_expected_soft: u64,
+}
+
+struct St {
+    hist: Vec<Ev>,
+    obs: Obs,
+}
+
+struct ExecModel {
+    setup: Setup,
+    blocks: Vec<SequencerBlock>,
+}
+
+fn commit_level_name(l: CommitLevel) -> &'static str {
+    match l {
+        CommitLevel::SoftOnly => "SoftOnly",
+        CommitLevel::FirmOnly => "FirmOnly",
+        CommitLevel::SoftAndFirm => "SoftAndFirm",
+    }
+}
+
+impl ExecModel {
+    fn new(setup: Setup) -> Self {
+        let blocks = (0..WINDOW + 1)
+            .map(|k| {
+                let height = u32::try_from(setup.sequencer_start).unwrap() + k;
+                ConfigureSequencerBlock {
+                    block_hash: Some(astria_core::sequencerblock::v1::block::Hash::new([(k + 1) as u8; 32])),
+                    chain_id: Some("verif-seq".to_string()),
+                    height,
+                    sequence_data: vec![(ROLLUP, format!("tx-{k}").into_bytes())],
+                    unix_timestamp: (1i64, 1u32).into(),
+                    signing_key: Some(astria_core::crypto::SigningKey::from([3; 32])),
+                    proposer_address: None,
+                    ..Default::default()
+                }
+                .make()
+            })
+            .collect();
+        Self {
+            setup,
+            blocks,
+        }
+    }
+
+    fn seq_hash(&self, k: u32) -> String {
+        self.blocks[k as usize].block_hash().to_string()
+    }
+
+    fn offset_of_hash(&self, h: &str) -> Option<u32> {
+        (0..self.blocks.len() as u32).find(|k| self.seq_hash(*k) == h)
+    }
+
+    fn soft_block(&self, k: u32) -> FilteredSequencerBlock {
+        self.blocks[k as usize].clone().into_filtered_block([ROLLUP])
+    }
+
+    fn firm_block(&self, k: u32) -> ReconstructedBlock {
+        let b = &self.blocks[k as usize];
+        ReconstructedBlock {
+            celestia_height: 100 + u64::from(k),
+            block_hash: *b.block_hash(),
+            header: b.header().clone(),
+            transactions: b.rollup_transactions().get(&ROLLUP).map(|t| t.transactions().to_vec()).unwrap_or_default(),
+            extended_commit_info: None,
+        }
+    }
+
+    fn viol(&self, clause: &str, signature: &str, detail: String) -> Violation {
+        Violation {
+            clause: clause.into(),
+            signature: signature.into(),
+            detail: format!(
+                "{} start=({},{}) look_ahead={}: {detail}",
+                commit_level_name(self.setup.level),
+                self.setup.sequencer_start,
+                self.setup.rollup_start,
+                self.setup.look_ahead
+            ),
+        }
+    }
+
+    fn run(&self, hist: &[Ev]) -> Result<Obs, Violation> {
+        let w = worker();
+        let genesis_number = self.setup.rollup_start - 1;
+        let genesis_hash = "genesis".to_string();
+        // reset the fake rollup
+        {
+            let mut r = w.rollup.0.lock().unwrap();
+            *r = Rollup::default();
+            r.blocks.insert(genesis_number, (genesis_hash.clone(), "pre-genesis".into(), String::new()));
+            r.firm = genesis_number;
+            r.soft = genesis_number;
+            r.session = Some(raw::ExecutionSession {
+                session_id: "verif-session".into(),
+                execution_session_parameters: Some(raw::ExecutionSessionParameters {
+                    rollup_id: Some(ROLLUP.into_raw()),
+                    rollup_start_block_number: self.setup.rollup_start,
+                    rollup_end_block_number: 0,
+                    sequencer_chain_id: "verif-seq".into(),
+                    sequencer_start_block_height: self.setup.sequencer_start,
+                    celestia_chain_id: "celestia".into(),
+                    celestia_search_height_max_look_ahead: self.setup.look_ahead,
+                }),
+                commitment_state: Some(raw::CommitmentState {
+                    firm_executed_block_metadata: Some(meta(genesis_number, &genesis_hash, "pre-genesis", "")),
+                    soft_executed_block_metadata: Some(meta(genesis_number, &genesis_hash, "pre-genesis", "")),
+                    lowest_celestia_search_height: 1,
+                }),
+            });
+        }
+        let setup = self.setup;
+        let result: Result<Obs, Violation> = w.rt.block_on(async {
+            let session = ExecutionSession::try_from_raw(w.rollup.0.lock().unwrap().session.clone().unwrap()).unwrap();
+            let state = State::try_from_execution_session(&session, setup.level)
+                .map_err(|e| self.viol("harness", "invalid session", format!("{e:?}")))?;
+            let (state_tx, state_rx) = crate::state::channel(state);
+            let (_soft_tx, soft_rx) = tokio::sync::mpsc::channel(16);
+            let (_firm_tx, firm_rx) = tokio::sync::mpsc::channel(16);
+            let config = crate::Config {
+                celestia_block_time_ms: 1000,
+                celestia_node_http_url: "http://127.0.0.1:1".into(),
+                no_celestia_auth: true,
+                celestia_bearer_token: String::new(),
+                sequencer_grpc_url: "http://127.0.0.1:1".into(),
+                sequencer_cometbft_url: "http://127.0.0.1:1".into(),
+                sequencer_block_time_ms: 1000,
+                sequencer_requests_per_second: 100,
+                execution_rpc_url: format!("http://{}", w.addr),
+                log: "info".into(),
+                execution_commit_level: setup.level,
+                force_stdout: false,
+                no_otel: true,
+                no_metrics: true,
+                metrics_http_listener_addr: String::new(),
+            };
+            let client = Client::connect_lazy(&config.execution_rpc_url).unwrap();
+            let mut exec = Initialized {
+                config,
+                client,
+                firm_blocks: firm_rx,
+                soft_blocks: soft_rx,
+                shutdown: CancellationToken::new(),
+                state: state_tx,
+                blocks_pending_finalization: HashMap::new(),
+                metrics: w.metrics,
+                reader_tasks: JoinMap::new(),
+                reader_cancellation_token: CancellationToken::new(),
+            };
+            let mut soft_cache: BlockCache<FilteredSequencerBlock> =
+                BlockCache::with_next_height(state_rx.next_expected_soft_sequencer_height()).unwrap();
+            let mut firm_cache: BlockCache<ReconstructedBlock> =
+                BlockCache::with_next_height(state_rx.next_expected_firm_sequencer_height()).unwrap();
+            let mut soft_queue: Vec<u32> = Vec::new();
+            let mut firm_queue: Vec<u32> = Vec::new();
+            let mut soft_cache_content: Vec<u64> = Vec::new();
+            let mut firm_cache_content: Vec<u64> = Vec::new();
+            let mut soft_next = 0u32;
+            let mut firm_next = 0u32;
+            let mut stopped = false;
+            let mut deviations = 0u32;
+            let offset = |h: u64| u32::try_from(h - setup.sequencer_start).unwrap();
+            for ev in hist {
+                if stopped {
+                    break;
+                }
+                match ev {
+                    Ev::SoftArrive(k) => {
+                        if *k == soft_next {
+                            soft_next += 1;
+                        } else {
+                            deviations += 1;
+                        }
+                        let h = setup.sequencer_start + u64::from(*k);
+                        if soft_cache.insert(self.soft_block(*k)).is_ok() {
+                            soft_cache_content.push(h);
+                        }
+                        while let Some(b) = soft_cache.pop() {
+                            soft_queue.push(offset(b.height().value()));
+                        }
+                        let next = soft_cache.next_height_to_pop();
+                        soft_cache_content.retain(|x| *x >= next);
+                    }
+                    Ev::SoftSync => {
+                        soft_cache.drop_obsolete(state_rx.next_expected_soft_sequencer_height());
+                        while let Some(b) = soft_cache.pop() {
+                            soft_queue.push(offset(b.height().value()));
+                        }
+                        let next = soft_cache.next_height_to_pop();
+                        soft_cache_content.retain(|x| *x >= next);
+                    }
+                    Ev::FirmArrive(k) => {
+                        if *k == firm_next {
+                            firm_next += 1;
+                        } else {
+                            deviations += 1;
+                        }
+                        let h = setup.sequencer_start + u64::from(*k);
+                        if firm_cache.insert(self.firm_block(*k)).is_ok() {
+                            firm_cache_content.push(h);
+                        }
+                        while let Some(b) = firm_cache.pop() {
+                            firm_queue.push(offset(b.sequencer_height().value()));
+                        }
+                        let next = firm_cache.next_height_to_pop();
+                        firm_cache_content.retain(|x| *x >= next);
+                    }
+                    Ev::ExecSoft => {
+                        if soft_queue.is_empty() || exec.is_spread_too_large() {
+                            return Err(self.viol("harness", "ExecSoft not enabled", format!("{hist:?}")));
+                        }
+                        let k = soft_queue.remove(0);
+                        if exec.execute_soft(self.soft_block(k)).await.is_err() {
+                            stopped = true;
+                        }
+                    }
+                    Ev::ExecFirm => {
+                        if firm_queue.is_empty() {
+                            return Err(self.viol("harness", "ExecFirm not enabled", format!("{hist:?}")));
+                        }
+                        let k = firm_queue.remove(0);
+                        if exec.execute_firm(Box::new(self.firm_block(k))).await.is_err() {
+                            stopped = true;
+                        }
+                    }
+                }
+            }
+            // ------------------------------------------------------------------ oracle on the rollup's log
+            let r = w.rollup.0.lock().unwrap();
+            let mut executed: Vec<u32> = Vec::new();
+            let mut last_hash = genesis_hash.clone();
+            let (mut firm_n, mut soft_n) = (genesis_number, genesis_number);
+            for call in &r.log {
+                match call {
+                    Call::Execute {
+                        seq_hash,
+                        parent_hash,
+                        number,
+                        hash,
+                    } => {
+                        let Some(k) = self.offset_of_hash(seq_hash) else {
+                            return Err(self.viol("once-in-order", "unknown sequencer block executed", seq_hash.clone()));
+                        };
+                        let want = executed.len() as u32;
+                        if k != want {
+                            let sig = if executed.contains(&k) {
+                                "a sequencer height was executed twice"
+                            } else if k < want {
+                                "a stale sequencer height was executed"
+                            } else {
+                                "a sequencer height was skipped"
+                            };
+                            return Err(self.viol(
+                                "once-in-order",
+                                sig,
+                                format!("ExecuteBlock for offset {k} after offsets {executed:?}; history {hist:?}"),
+                            ));
+                        }
+                        if *parent_hash != last_hash {
+                            return Err(self.viol(
+                                "parent-chain",
+                                "block not executed on top of the previous height's block",
+                                format!("offset {k}: parent {parent_hash}, previous block {last_hash}; history {hist:?}"),
+                            ));
+                        }
+                        if *number != genesis_number + 1 + u64::from(k) {
+                            return Err(self.viol("parent-chain", "rollup number does not match the sequencer height", format!("offset {k} -> number {number}")));
+                        }
+                        last_hash = hash.clone();
+                        executed.push(k);
+                    }
+                    Call::Update {
+                        firm,
+                        soft,
+                    } => {
+                        if firm.0 < firm_n || soft.0 < soft_n {
+                            return Err(self.viol(
+                                "commitments-monotone",
+                                "a commitment decreased",
+                                format!("firm {firm_n} -> {}, soft {soft_n} -> {}; history {hist:?}", firm.0, soft.0),
+                            ));
+                        }
+                        if firm.0 > soft.0 {
+                            return Err(self.viol("commitments-monotone", "firm commitment above soft", format!("firm {} soft {}", firm.0, soft.0)));
+                        }
+                        for (which, (n, h)) in [("firm", firm), ("soft", soft)] {
+                            match r.blocks.get(n) {
+                                Some((bh, _, _)) if bh == h => {}
+                                other => {
+                                    return Err(self.viol(
+                                        "commitment-names-executed-block",
+                                        "commitment names a block that was not executed at that number",
+                                        format!("{which} commitment ({n}, {h}), rollup has {other:?}; history {hist:?}"),
+                                    ));
+                                }
+                            }
+                        }
+                        firm_n = firm.0;
+                        soft_n = soft.0;
+                    }
+                }
+            }
+            if !r.contract_errors.is_empty() {
+                return Err(self.viol("parent-chain", "rollup contract violated", format!("{:?}; history {hist:?}", r.contract_errors)));
+            }
+            // non-vacuity: an in-order history must not stop the executor
+            if stopped && deviations == 0 {
+                return Err(self.viol(
+                    "honest-stream-executed",
+                    "executor stopped on in-order streams",
+                    format!("history {hist:?}"),
+                ));
+            }
+            Ok(Obs {
+                firm: firm_n,
+                soft: soft_n,
+                soft_queue,
+                firm_queue,
+                soft_cache: (soft_cache.next_height_to_pop(), soft_cache_content),
+                firm_cache: (firm_cache.next_height_to_pop(), firm_cache_content),
+                soft_next,
+                firm_next,
+                stopped,
+                executed,
+                next_expected_soft: state_rx.next_expected_soft_sequencer_height().value(),
+            })
+        });
+        result
+    }
+}
+
+impl Model for ExecModel {
+    type Ev = Ev;
+    type St = St;
+
+    fn init(&self) -> St {
+        St {
+            hist: vec![],
+            obs: self.run(&[]).ok().expect("empty run"),
+        }
+    }
+
+    fn enabled(&self, st: &St, _hist: &[Ev]) -> Vec<Ev> {
+        if st.obs.stopped {
+            return vec![];
+        }
+        let mut v = Vec::new();
+        let with_soft = self.setup.level.is_with_soft();
+        let with_firm = self.setup.level.is_with_firm();
+        // executor steps first (default path), then in-order deliveries, then deviations
+        if with_firm && !st.obs.firm_queue.is_empty() {
+            v.push(Ev::ExecFirm);
+        }
+        if with_soft && !st.obs.soft_queue.is_empty() {
+            // `is_spread_too_large` of the real executor gates the soft branch
+            let next_firm = st.obs.firm + 1;
+            let next_soft = st.obs.soft + 1;
+            let too_large = with_firm && next_soft.saturating_sub(next_firm) >= self.setup.look_ahead;
+            if !too_large {
+                v.push(Ev::ExecSoft);
+            }
+        }
+        if with_soft && st.obs.soft_cache.0 < st.obs.next_expected_soft {
+            v.push(Ev::SoftSync);
+        }
+        if with_soft {
+            for k in 0..WINDOW {
+                v.push(Ev::SoftArrive(k));
+            }
+        }
+        if with_firm {
+            for k in 0..WINDOW {
+                v.push(Ev::FirmArrive(k));
+            }
+        }
+        v
+    }
+
+    fn cost(&self, _ev: &Ev) -> u32 {
+        0
+    }
+
+    fn step(&self, st: &St, _hist: &[Ev], ev: &Ev) -> Step<St> {
+        // deviation bound: count deliveries that are not the stream's next in-order block
+        let deviates = match ev {
+            Ev::SoftArrive(k) => *k != st.obs.soft_next,
+            Ev::FirmArrive(k) => *k != st.obs.firm_next,
+            _ => false,
+        };
+        let past = st
+            .hist
+            .iter()
+            .scan((0u32, 0u32), |(s, f), e| {
+                let d = match e {
+                    Ev::SoftArrive(k) => {
+                        let d = *k != *s;
+                        if !d {
+                            *s += 1;
+                        }
+                        d
+                    }
+                    Ev::FirmArrive(k) => {
+                        let d = *k != *f;
+                        if !d {
+                            *f += 1;
+                        }
+                        d
+                    }
+                    _ => false,
+                };
+                Some(d)
+            })
+            .filter(|d| *d)
+            .count() as u32;
+        if past + u32::from(deviates) > MAX_DEVIATIONS.load(std::sync::atomic::Ordering::Relaxed) {
+            return Step::Skip;
+        }
+        let mut hist = st.hist.clone();
+        hist.push(*ev);
+        match self.run(&hist) {
+            Ok(obs) => Step::Next(St {
+                hist,
+                obs,
+            }),
+            Err(v) => Step::Violated(v),
+        }
+    }
+
+    fn canon(&self, st: &St) -> u128 {
+        report::h128(&st.obs)
+    }
+
+    fn outcome(&self, st: &St) -> u64 {
+        report::h64(&(st.obs.executed.len(), st.obs.firm, st.obs.soft, st.obs.stopped))
+    }
+}
+
+static MAX_DEVIATIONS: std::sync::atomic::AtomicU32 = std::sync::atomic::AtomicU32::new(1);
+
+fn ev_json(ev: &Ev) -> J {
+    J::s(match ev {
+        Ev::SoftArrive(k) => format!("soft_arrive:{k}"),
+        Ev::FirmArrive(k) => format!("firm_arrive:{k}"),
+        Ev::ExecSoft => "exec_soft".into(),
+        Ev::ExecFirm => "exec_firm".into(),
+        Ev::SoftSync => "soft_sync".into(),
+    })
+}
+
+fn ev_parse(s: &str) -> Ev {
+    match s {
+        "exec_soft" => Ev::ExecSoft,
+        "exec_firm" => Ev::ExecFirm,
+        "soft_sync" => Ev::SoftSync,
+        other => {
+            let (a, k) = other.split_once(':').unwrap();
+            let k: u32 = k.parse().unwrap();
+            if a == "soft_arrive" {
+                Ev::SoftArrive(k)
+            } else {
+                Ev::FirmArrive(k)
+            }
+        }
+    }
+}
+
+fn setups(thorough: bool) -> Vec<Setup> {
+    let mut v = Vec::new();
+    for level in [CommitLevel::SoftAndFirm, CommitLevel::SoftOnly, CommitLevel::FirmOnly] {
+        for (sequencer_start, rollup_start) in if thorough { vec![(10, 1), (1, 1), (10, 4)] } else { vec![(10, 1)] } {
+            for look_ahead in if level == CommitLevel::SoftAndFirm { vec![2u64, 1, 16] } else { vec![2] } {
+                if !thorough && look_ahead == 16 {
+                    continue;
+                }
+                v.push(Setup {
+                    level,
+                    sequencer_start,
+                    rollup_start,
+                    look_ahead,
+                });
+            }
+        }
+    }
+    v
+}
+
+#[test]
+fn verif_c10() {
+    let mut rep = Report::new("C10", "executor");
+    let thorough = report::tier() == Tier::Thorough;
+    if let Some(case) = report::load_replay("C10", "executor") {
+        let level = match case.get("level").and_then(J::as_str) {
+            Some("SoftOnly") => CommitLevel::SoftOnly,
+            Some("FirmOnly") => CommitLevel::FirmOnly,
+            _ => CommitLevel::SoftAndFirm,
+        };
+        let g = |k: &str| case.get(k).and_then(J::as_int).unwrap() as u64;
+        let m = ExecModel::new(Setup {
+            level,
+            sequencer_start: g("sequencer_start"),
+            rollup_start: g("rollup_start"),
+            look_ahead: g("look_ahead"),
+        });
+        MAX_DEVIATIONS.store(99, std::sync::atomic::Ordering::Relaxed);
+        let hist: Vec<Ev> = case.get("history").and_then(J::as_arr).unwrap().iter().map(|j| ev_parse(j.as_str().unwrap())).collect();
+        let a = explore::replay(&m, &hist);
+        let b = explore::replay(&m, &hist);
+        assert_eq!(format!("{a:?}"), format!("{b:?}"), "uncontrolled nondeterminism");
+        if let Ok(Some(v)) = a {
+            rep.finding(Finding {
+                clause: v.clause,
+                signature: v.signature,
+                detail: v.detail,
+                case,
+            });
+        }
+        rep.finish();
+        return;
+    }
+    let (depth, deviations) = if thorough { (16, 3) } else { (11, 2) };
+    MAX_DEVIATIONS.store(deviations, std::sync::atomic::Ordering::Relaxed);
+    rep.rule(&format!(
+        "BFS over every interleaving of <= {depth} events from {{soft reader delivers block k, firm reader delivers block k \
+         (k in a window of {WINDOW} heights; any k that is not the stream's next in-order block is a deviation: duplicate, stale, \
+         skip-ahead; at most {deviations} deviations per history), executor takes the next soft block (only while the real \
+         is_spread_too_large() is false), executor takes the next firm block}} for commit levels and session offsets {:?}; each \
+         state is the history replayed on a fresh real Initialized executor (real BlockCache x2, execute_soft / execute_firm, \
+         real gRPC Client) against a fake rollup that executes on top of the named parent and logs every RPC; oracle on the log: \
+         one ExecuteBlock per height, increasing, on the previous block; commitments monotone, firm <= soft, each naming the \
+         block executed at that number; in-order streams never stop the executor",
+        setups(thorough).iter().map(|s| format!("{}:{}:{}:{}", commit_level_name(s.level), s.sequencer_start, s.rollup_start, s.look_ahead)).collect::<Vec<_>>()
+    ));
+    let mut outcomes = 0;
+    for setup in setups(thorough) {
+        let m = ExecModel::new(setup);
+        let out = explore::explore(
+            &m,
+            &ExploreConfig {
+                max_depth: depth,
+                workers: report::workers(),
+                time_cap: std::time::Duration::from_secs(if thorough { 2400 } else { 200 }),
+                ..ExploreConfig::default()
+            },
+        );
+        println!(
+            "NOTE C10 {} start=({},{}) look_ahead={} depth={depth}: states={} transitions={} skipped={} outcomes={} violations={}",
+            commit_level_name(setup.level),
+            setup.sequencer_start,
+            setup.rollup_start,
+            setup.look_ahead,
+            out.states,
+            out.transitions,
+            out.skipped,
+            out.distinct_outcomes,
+            out.violations.len()
+        );
+        rep.add("states", out.states);
+        rep.add("transitions", out.transitions);
+        rep.add("traces_validated_against_impl", out.transitions);
+        outcomes = outcomes.max(out.distinct_outcomes);
+        if let Some(cap) = &out.cap_hit {
+            rep.cap_hit(cap);
+        }
+        for v in &out.violations {
+            rep.finding(Finding {
+                clause: v.violation.clause.clone(),
+                signature: v.violation.signature.clone(),
+                detail: v.violation.detail.clone(),
+                case: J::obj()
+                    .with("level", J::s(commit_level_name(setup.level)))
+                    .with("sequencer_start", J::i(setup.sequencer_start))
+                    .with("rollup_start", J::i(setup.rollup_start))
+                    .with("look_ahead", J::i(setup.look_ahead))
+                    .with("history", J::arr(v.history.iter().map(ev_json))),
+            });
+        }
+        for h in out.sample_histories.iter().take(1) {
+            rep.sample(J::obj().with("level", J::s(commit_level_name(setup.level))).with("history", J::arr(h.iter().map(ev_json))));
+        }
+    }
+    rep.add("distinct_outcomes", outcomes);
+    rep.set_extra("depth", J::i(depth));
+    rep.set_extra("max_deviations", J::i(deviations));
+    rep.assume("the executor's select loop only chooses between execute_soft and execute_firm; the readers are modelled as: follow the executor's next expected height (drop_obsolete), insert into the real BlockCache, forward every sequential block; channel capacities are not modelled");
+    rep.finish();
+}
